@@ -354,6 +354,9 @@ def template_for(I: Interp, st: Any, fr: Frame, seq: VList) -> None:
     for f in I.frames:
         for x in f.env.values():
             scan(x, seen)
+    for x in I.ghost.values():  # ghost logs (sequences appended to by contracts)
+        if isinstance(x, V):
+            scan(x, seen)
 
     def run(child: Interp, cfr: Frame) -> None:
         child.assume(z3.And(j >= 0, j < n))
